@@ -21,6 +21,8 @@ for k in (1, 2):
     if tests:
         names = re.findall(r"func (Test\w+)\(", open(tests[0]).read())
         args += ["--demo-test", tests[0], "--demo-run", "^(" + "|".join(names) + ")$"]
+        if "VerifProbe" in open(tests[0]).read() or "go:build verif" in open(tests[0]).read():
+            args += ["--demo-tags", "verif"]
     else:
         note = notes[k - 1] if len(notes) >= k else {}
         print("non-test demo for", prop, k, ":", note.get("demo"))
